@@ -28,7 +28,7 @@ CRASH_IS_VIOLATION = False
 SERS = ["json", "msgpack", "cbor", "ubjson"]
 TRANSPORTS = ["websocket", "rawsocket"]
 NPARTS = {"quick": 8, "thorough": 8}
-SCENARIOS = {"quick": 400, "thorough": 8000}          # per shard (~25 ms each)          # per shard
+SCENARIOS = {"quick": 400, "thorough": 8000}          # per shard (~25 ms each)
 RUNTIME_ERROR = L.RUNTIME_ERROR
 TYPE_CHECK_ERROR = "wamp.error.type_check_error"
 
